@@ -151,7 +151,7 @@ class PolygonBase(SingleShapeBase, PolygonLikeMixin, ABC):
             return False
 
         if isinstance(shape, PointLike):
-            return shape in self
+            return self.contains_coordinate(shape.centroid)
 
         s_edges = self.edges(**kwargs)
         o_edges = shape.edges(**kwargs) if isinstance(shape, PolygonLike) else [cast(LineLike, shape).segments]
@@ -1559,7 +1559,7 @@ class GeoLineString(SingleShapeBase, LineLikeMixin, SimpleShapeMixin):
             return False
 
         if isinstance(shape, PointLike):
-            return shape in self
+            return self.contains_coordinate(shape.centroid)
 
         s_edges = [self.segments]
         o_edges = shape.edges(**kwargs) if isinstance(shape, PolygonLike) else [cast(LineLike, shape).segments]
@@ -1689,8 +1689,8 @@ class GeoPoint(SingleShapeBase, PointLikeMixin, SimpleShapeMixin):
 
     def intersects_shape(self, shape: 'GeoShape', **kwargs) -> bool:
         if isinstance(shape, GeoPoint):
-            return self == shape
-        return self in shape
+            return self.coordinate == shape.coordinate
+        return shape.intersects_shape(self)
 
     @classmethod
     def from_geojson(
